@@ -352,6 +352,7 @@ class Interp:
             ast.Is: "is", ast.IsNot: "is not", ast.In: "in", ast.NotIn: "not in"}
 
     def ev_Compare(self, n, st):
+        V.CURRENT_MODE[0] = self.mode
         left = self.ev(n.left, st)
         res = []
         for op, c in zip(n.ops, n.comparators):
